@@ -234,4 +234,170 @@ theorem closed_map {α β : Type} (f : α → β) {r : List α} (h : Closed r) :
   unfold Closed at *
   rw [List.head?_map, List.getLast?_map, h]
 
+/-! ### across the antimeridian: the library's sum is minus the shoelace area of the un-wrapped ring -/
+
+theorem dlon_antisymm (a b : Rat) : dlon b a = - dlon a b := by
+  unfold dlon
+  by_cases h1 : b - a > 180
+  · have h2 : ¬ (a - b > 180) := by intro h; linarith
+    have h3 : a - b < -180 := by linarith
+    simp [h1, h2, h3]; ring
+  · by_cases h2 : b - a < -180
+    · have h3 : a - b > 180 := by linarith
+      simp [h1, h2, h3]; ring
+    · have h3 : ¬ (a - b > 180) := by intro h; apply h2; linarith
+      have h4 : ¬ (a - b < -180) := by intro h; apply h1; linarith
+      simp [h1, h2, h3, h4]
+
+/-- with stored longitudes in range, `ensure_edge_bounds` takes the short way round -/
+theorem slE_eq_dlon (a b : Pt) (ha : -180 ≤ a.1 ∧ a.1 ≤ 180) (hb : -180 ≤ b.1 ∧ b.1 ≤ 180) :
+    slE (a, b) = dlon a.1 b.1 * (b.2 + a.2) := by
+  unfold slE ensureEdge dlon absR
+  by_cases hneg : a.1 - b.1 < 0
+  · by_cases hbig : -(a.1 - b.1) > 180
+    · have h1 : b.1 - a.1 > 180 := by linarith
+      have h2 : a.1 < 0 := by linarith [hb.2]
+      simp [hneg, h1, h2]
+      left; ring
+    · have h1 : ¬ (b.1 - a.1 > 180) := by intro h; apply hbig; linarith
+      have h2 : ¬ (b.1 - a.1 < -180) := by intro h; linarith
+      simp [hneg, h1, h2]
+  · by_cases hbig : a.1 - b.1 > 180
+    · have h1 : ¬ (b.1 - a.1 > 180) := by intro h; linarith
+      have h2 : b.1 - a.1 < -180 := by linarith
+      have h3 : ¬ (a.1 < 0) := by intro h; linarith [hb.1]
+      simp [hneg, hbig, h1, h2, h3]
+      left; ring
+    · have h1 : ¬ (b.1 - a.1 > 180) := by intro h; apply hneg; linarith
+      have h2 : ¬ (b.1 - a.1 < -180) := by intro h; apply hbig; linarith
+      simp [hneg, hbig, h1, h2]
+
+theorem mem_of_mem_pairs {l : List Pt} {a b : Pt} (h : (a, b) ∈ pairs l) : a ∈ l ∧ b ∈ l := by
+  fun_induction pairs l with
+  | case1 x y r ih =>
+    simp only [List.mem_cons] at h
+    rcases h with h | h
+    · cases h; simp
+    · have := ih h
+      exact ⟨by simp [this.1], by simp [this.2]⟩
+  | case2 l hl => simp at h
+
+theorem chain_slE_lonOK (l : List Pt) (h : LonOK l) :
+    chain (fun x y => slE (x, y)) l = chain (fun x y => dlon x.1 y.1 * (y.2 + x.2)) l :=
+  chain_congr l (fun a b hab => by
+    obtain ⟨ha, hb⟩ := mem_of_mem_pairs hab
+    exact slE_eq_dlon a b (h a ha) (h b hb))
+
+theorem unwrapFrom_cons (u : Rat) (b : Pt) (t : List Pt) :
+    ∃ tl, unwrapFrom u (b :: t) = (u, b.2) :: tl := by
+  cases t with
+  | nil => exact ⟨[], rfl⟩
+  | cons c r => exact ⟨_, rfl⟩
+
+theorem chain_dlon_unwrap (l : List Pt) (u : Rat) :
+    chain (fun x y => dlon x.1 y.1 * (y.2 + x.2)) l
+      = chain (fun x y => (y.1 - x.1) * (y.2 + x.2)) (unwrapFrom u l) := by
+  induction l generalizing u with
+  | nil => simp [unwrapFrom, chain]
+  | cons a t ih =>
+    cases t with
+    | nil => simp [unwrapFrom, chain]
+    | cons b r =>
+      obtain ⟨tl, htl⟩ := unwrapFrom_cons (u + dlon a.1 b.1) b r
+      have h1 : unwrapFrom u (a :: b :: r) = (u, a.2) :: unwrapFrom (u + dlon a.1 b.1) (b :: r) := rfl
+      rw [h1, htl]
+      simp only [chain]
+      rw [ih (u + dlon a.1 b.1), htl]
+      ring
+
+theorem unwrapFrom_getLast (l : List Pt) (u : Rat) (a : Pt) (t : List Pt) (hl : l = a :: t) :
+    (unwrapFrom u l).getLast? = some (u + turn l, (l.getLast (by rw [hl]; simp)).2) := by
+  induction t generalizing u a l with
+  | nil => subst hl; simp [unwrapFrom, turn, chain]
+  | cons b r ih =>
+    subst hl
+    have h1 : unwrapFrom u (a :: b :: r) = (u, a.2) :: unwrapFrom (u + dlon a.1 b.1) (b :: r) := rfl
+    obtain ⟨tl, htl⟩ := unwrapFrom_cons (u + dlon a.1 b.1) b r
+    have := ih (b :: r) (u + dlon a.1 b.1) b rfl
+    rw [h1, htl, List.getLast?_cons_cons, ← htl, this]
+    simp [turn, chain, List.getLast_cons_cons, add_assoc]
+
+theorem shoelace_closed (a : Pt) (vs : List Pt) (hc : Closed (a :: vs)) :
+    shoelace (a :: vs) = chain (fun x y => slE (x, y)) (a :: vs) := by
+  rw [shoelace_eq_chain]
+  have hlast : (a :: vs).getLast? = some a := by
+    unfold Closed at hc; simpa using hc.symm
+  have hl : a :: (vs ++ [a]) = (a :: vs) ++ [a] := rfl
+  rw [hl, chain_append_single, hlast]
+  simp [slE_self]
+
+/-- **closed ring, stored longitudes in range, not running around a pole**: the library's sum is minus the
+    plain shoelace area of the un-wrapped ring — also when the ring crosses the antimeridian -/
+theorem shoelace_eq_neg_area2_unwrap (r : List Pt) (hc : Closed r) (hl : LonOK r) (ht : turn r = 0) :
+    shoelace r = - area2 (unwrap r) := by
+  cases r with
+  | nil => simp [shoelace, cyclicPairs, area2, chain, unwrap]
+  | cons a vs =>
+    rw [shoelace_closed a vs hc, chain_slE_lonOK _ hl, chain_dlon_unwrap _ a.1]
+    have hlast : (a :: vs).getLast? = some a := by
+      unfold Closed at hc; simpa using hc.symm
+    have hg : (a :: vs).getLast (by simp) = a := by
+      have := List.getLast?_eq_some_getLast (l := a :: vs) (by simp)
+      rw [hlast] at this
+      exact (Option.some.inj this).symm
+    obtain ⟨tl, htl⟩ := unwrapFrom_cons a.1 a vs
+    have hU := unwrapFrom_getLast (a :: vs) a.1 a vs rfl
+    rw [ht, hg, add_zero, htl] at hU
+    have hUl : ((a.1, a.2) :: tl).getLast (by simp) = (a.1, a.2) := by
+      have := List.getLast?_eq_some_getLast (l := (a.1, a.2) :: tl) (by simp)
+      rw [hU] at this
+      exact (Option.some.inj this).symm
+    have hsplit : (fun (x y : Pt) => (y.1 - x.1) * (y.2 + x.2)) =
+        (fun (x y : Pt) => ((fun p : Pt => p.1 * p.2) y - (fun p : Pt => p.1 * p.2) x) - (x.1 * y.2 - y.1 * x.2)) := by
+      funext x y; ring
+    have hu : unwrap (a :: vs) = (a.1, a.2) :: tl := htl
+    rw [hu, htl, hsplit, chain_sub, chain_telescope, hUl]
+    unfold area2
+    ring
+
+theorem isCCW_iff_winding (r : List Pt) (hc : Closed r) (hl : LonOK r) (ht : turn r = 0) :
+    isCCW r = true ↔ 0 ≤ area2 (unwrap r) := by
+  unfold isCCW
+  rw [shoelace_eq_neg_area2_unwrap r hc hl ht]
+  simp
+
+theorem lonOK_reverse {r : List Pt} (h : LonOK r) : LonOK r.reverse :=
+  fun p hp => h p (List.mem_reverse.mp hp)
+
+theorem turn_reverse (r : List Pt) : turn r.reverse = - turn r := by
+  unfold turn
+  exact chain_reverse _ (fun a b => dlon_antisymm a.1 b.1) r
+
+/-- reversing a closed ring negates the library's sum — on either side of, or across, the antimeridian -/
+theorem shoelace_reverse (r : List Pt) (hc : Closed r) (hl : LonOK r) : shoelace r.reverse = - shoelace r := by
+  cases r with
+  | nil => simp [shoelace, cyclicPairs]
+  | cons a vs =>
+    have hcr : Closed (a :: vs).reverse := closed_reverse hc
+    have hne : (a :: vs).reverse ≠ [] := by simp
+    obtain ⟨b, ws, hbw⟩ := List.exists_cons_of_ne_nil hne
+    rw [hbw] at hcr
+    rw [shoelace_closed a vs hc, hbw, shoelace_closed b ws hcr, ← hbw,
+      chain_slE_lonOK _ hl, chain_slE_lonOK _ (lonOK_reverse hl)]
+    exact chain_reverse _ (fun x y => by
+      show dlon y.1 x.1 * (x.2 + y.2) = - (dlon x.1 y.1 * (y.2 + x.2))
+      rw [dlon_antisymm]; ring) _
+
+/-- reversing a ring with a non-zero sum flips the library's orientation test (antimeridian included) -/
+theorem isCCW_reverse_lon (r : List Pt) (hc : Closed r) (hl : LonOK r) (ha : shoelace r ≠ 0) :
+    isCCW r.reverse = !isCCW r := by
+  unfold isCCW
+  rw [shoelace_reverse r hc hl]
+  by_cases h : shoelace r ≤ 0
+  · have : ¬ (- shoelace r ≤ 0) := by
+      intro h'; exact ha (le_antisymm h (by linarith))
+    simp [h, this]
+  · have : - shoelace r ≤ 0 := by linarith [not_le.mp h]
+    simp [h, this]
+
 end GV.GeoJson
